@@ -1480,11 +1480,41 @@ def _replay_buffers(events, buffers):
     if not marks:
         return events
     names = {n_: i_ for i_, n_ in buffers.items()}
+
+    def sink_local(e):
+        sink = getattr(e, "sink", None)
+        sk = H.strip(sink) if isinstance(sink, dict) else None
+        while isinstance(sk, dict) and (sk.get("k") == "AddrOf" or (sk.get("k") == "Unary" and sk.get("op") == "Deref")):
+            sk = H.strip(sk["e"])
+        return sk
+
+    # a buffer is replayed only where that is what happens: something else reaches the output between what was put into the buffer
+    # and the point where the buffer is written. Where everything in between goes into text buffers (the buffer itself, or a `&mut
+    # String` parameter of a helper that stands for it), the order in which it was written is the order in which it comes out
+    for m in marks:
+        first = next((i_ for i_, e in enumerate(events) if getattr(e, "kind", None) == "emit" and isinstance(sink_local(e), dict)
+                      and buffers.get(sink_local(e).get("id")) == m.name), None)
+        mi = events.index(m)
+        between = events[first:mi] if first is not None else []
+        def goes_out(e):
+            if getattr(e, "kind", None) == "call":
+                return not any(isinstance(a_, tuple) and a_ and a_[0] == "param" and str(a_[1]).startswith("buffer:") for a_ in (getattr(e, "args", None) or []))
+            if getattr(e, "kind", None) != "emit" or not isinstance(sink_local(e), dict):
+                return False
+            ty_ = ((sink_local(e).get("ty") or "") + " " + (sink_local(e).get("adj_ty") or "")).replace("alloc::", "std::")
+            return "string::String" not in ty_ and "str" != ty_.strip()
+        to_output = [e for e in between if goes_out(e)]
+        if not to_output:
+            m.name = None        # nothing to reorder for this buffer
+    marks = [m for m in marks if m.name is not None]
+    if not marks:
+        return [e for e in events if getattr(e, "kind", None) != "flush"]
     held = {}
     out = []
     for e in events:
         if getattr(e, "kind", None) == "flush":
-            out += held.pop(e.name, [])
+            if e.name is not None:
+                out += held.pop(e.name, [])
             continue
         sink = getattr(e, "sink", None)
         sk = H.strip(sink) if isinstance(sink, dict) else None
